@@ -94,22 +94,22 @@ theorem cloneType_mem (cfg : Cfg) (hd : cfg.deepClone = true) (h0 h : Heap) (ss 
   cases hk : t.kind with
   | input =>
     simp only
-    refine ⟨_, readType_alloc_new _ _, ⟨hk.symm, rfl, rfl, rfl, rfl, rfl, rfl⟩, ?_⟩
+    refine ⟨_, readType_alloc_new _ _, ⟨hk.symm, rfl, rfl, rfl, rfl, rfl, rfl, rfl⟩, ?_⟩
     simp only [MRel, hk]
     exact (copyArgs_sub2 h0 t.fields h ss (bi hk)).imp fun _ _ r => r.keep (step_alloc chkT _ _)
   | object =>
     simp only
-    refine ⟨_, readType_alloc_new _ _, ⟨hk.symm, rfl, rfl, rfl, rfl, rfl, rfl⟩, ?_⟩
+    refine ⟨_, readType_alloc_new _ _, ⟨hk.symm, rfl, rfl, rfl, rfl, rfl, rfl, rfl⟩, ?_⟩
     simp only [MRel, hk]
     exact (copyFields_sub2 h0 t.fields h ss (bo (Or.inl hk))).imp fun _ _ r => r.keep (step_alloc chkT _ _)
   | interface =>
     simp only
-    refine ⟨_, readType_alloc_new _ _, ⟨hk.symm, rfl, rfl, rfl, rfl, rfl, rfl⟩, ?_⟩
+    refine ⟨_, readType_alloc_new _ _, ⟨hk.symm, rfl, rfl, rfl, rfl, rfl, rfl, rfl⟩, ?_⟩
     simp only [MRel, hk]
     exact (copyFields_sub2 h0 t.fields h ss (bo (Or.inr hk))).imp fun _ _ r => r.keep (step_alloc chkT _ _)
-  | union => simp only; exact ⟨_, readType_alloc_new _ _, ⟨hk.symm, rfl, rfl, rfl, rfl, rfl, rfl⟩, by simp [MRel, hk]⟩
-  | scalar => simp only; exact ⟨_, readType_alloc_new _ _, ⟨hk.symm, rfl, rfl, rfl, rfl, rfl, rfl⟩, by simp [MRel, hk]⟩
-  | enum => simp only; exact ⟨_, readType_alloc_new _ _, ⟨hk.symm, rfl, rfl, rfl, rfl, rfl, rfl⟩, by simp [MRel, hk]⟩
+  | union => simp only; exact ⟨_, readType_alloc_new _ _, ⟨hk.symm, rfl, rfl, rfl, rfl, rfl, rfl, rfl⟩, by simp [MRel, hk]⟩
+  | scalar => simp only; exact ⟨_, readType_alloc_new _ _, ⟨hk.symm, rfl, rfl, rfl, rfl, rfl, rfl, rfl⟩, by simp [MRel, hk]⟩
+  | enum => simp only; exact ⟨_, readType_alloc_new _ _, ⟨hk.symm, rfl, rfl, rfl, rfl, rfl, rfl, rfl⟩, by simp [MRel, hk]⟩
 
 theorem cloneTypes_mem (cfg : Cfg) (hd : cfg.deepClone = true) (h0 : Heap) : ∀ (l : List (String × Addr)) (h : Heap), ShowsSrc h0 h →
     (∀ e, e ∈ l → ∀ t, h0.readType e.2 = some t → MembersReadable h0 t) →
